@@ -51,6 +51,8 @@ def gen_script(rng, k):
                 cons.append(("setvalue", i, cz(rng)))
         elif nodes >= 3:
             i, j = rng.sample(range(nodes), 2)
+            if rng.random() < 0.2:
+                j = i              # self tie (centre of a rotational cell)
             if i not in used and j not in used:
                 used.update((i, j))
                 cons.append(("periodic" if r < 0.75 else "antiperiodic", i, j))
